@@ -29,7 +29,7 @@ impl<'s, 'a: 's> Cursor<'a> {
     #[inline]
     pub fn clone_with_pos(&'s self, pos: usize) -> Cursor<'a> {
         Cursor {
-            buf: self.buf,
+            buf: self.orig.unwrap_or(self.buf),
             pos,
             orig: None,
         }
